@@ -20,6 +20,8 @@ def exp_models():
     return {
         "hem": create_exponential_of_levy_model(ModelType.HEM)(),
         "merton": create_exponential_of_levy_model(ModelType.MERTON)(),
+        "merton2": create_exponential_of_levy_model(ModelType.MERTON)(spot=80.0, r=0.03, d=0.01, sigma=0.12, sigma_j=0.04, mu_j=0.08, intensity=2.0),
+        "hem2": create_exponential_of_levy_model(ModelType.HEM)(spot=120.0, r=0.01, d=0.02, sigma=0.2, p=0.3, eta1=12.0, eta2=30.0, intensity=5.0),
         "vg": create_exponential_of_levy_model(ModelType.VG)(),
         "cgmy05": create_exponential_of_levy_model(ModelType.CGMY)(),
         "cgmy11": create_exponential_of_levy_model(ModelType.CGMY)(c=0.05, g=10.0, m=8.0, y=1.1),
